@@ -18,12 +18,27 @@ def main():
     cases = []
     for i in range(n):
         deep = chk.thorough and i % 5 == 0
-        prog, pop = progs.generate(rng, size=20 if deep else 12, max_depth=4 if deep else 3)
+        if i % 4 == 3:
+            # matrix blocks with rich bodies: a population with a matrix light, half of the `set`
+            # commands matrix commands, definitions allowed inside blocks
+            pop = progs.population(rng)
+            if not any(s['kind'] == 'matrix' for s in pop):
+                pop = [s for s in pop if s['label'] != 'Candle']
+                pop.append({'label': 'Candle', 'group': 'Den', 'location': 'Office', 'kind': 'matrix',
+                            'height': 3, 'width': 2, 'power': 0, 'color': [0, 0, 0, 3500],
+                            'cells': [[0, 0, 0, 3500]] * 6})
+            prog, pop = progs.generate(rng, pop=pop, size=12, max_depth=3,
+                                       features={'matrix_p': 0.5, 'nested_define': True,
+                                                 'weights': {'action': 8}})
+            stats['matrix_heavy'] = stats.get('matrix_heavy', 0) + 1
+        else:
+            prog, pop = progs.generate(rng, size=20 if deep else 12, max_depth=4 if deep else 3)
         cases.append(progcheck.Case(prog, pop))
     # fixed corpus: constructs the property names explicitly
     for text_prog in CORPUS:
         cases.append(progcheck.Case(text_prog[0], text_prog[1]))
     infos = progcheck.run_cases(chk, cases, stats=stats, do_wf=False)
+    gen_vs_parsetok(chk, [i['case'] for i in infos], stats)
     for info in infos[:3]:
         c = info['case']
         chk.sample({'script': c.text[:400], 'lights': [s['label'] for s in c.pop],
@@ -39,7 +54,11 @@ def main():
         'populations; each is compiled and run by the real stack on the simulated network and its '
         'trace (device commands, delays, output) compared with the source-level semantics (Lean '
         'Sem) = oracle, with the model VM on the real compiled program and with the model code '
-        'generator = tie; non-trivial = distinct script that ran to the end with matching trace')
+        'generator = tie; a quarter of the scripts are matrix-heavy (matrix-block bodies with '
+        'commands to other lights, wait, assignments, prints, get, if, loops, calls, definitions; '
+        'stage inside routine bodies); Gen.genProgram is also compared with ParseTok.parse of the '
+        'rendered text (gen-vs-parsetok); non-trivial = distinct script that ran to the end with '
+        'matching trace')
     chk.assumptions += [
         'keyboard statements (pause/breakpoint) are not generated',
         'floats are modelled by exact rationals; printed floats compared up to 1e-9 relative',
@@ -48,6 +67,40 @@ def main():
     if chk.thorough:
         chk.leanchecker()
     chk.finish()
+
+
+def gen_vs_parsetok(chk, cases, stats):
+    """the two Lean models of the compiler against each other: `Gen.genProgram` on the AST
+    (driver `gen.prog`, what the simulation theorem is about) and `ParseTok.parse` on the
+    rendered text (driver `parse.text`, the model of the real parser, tied to it in C06/C16);
+    instruction lists compared modulo `MOVE x x` as in the tie with the real program"""
+    import parsetok_check as ptc
+    import vmwire
+    from core import percent_encode
+    todo = [c for c in cases if not ptc.outside_lexer_model(c.text)]
+    reqs = []
+    for c in todo:
+        reqs.append(('gen.prog', [progs.to_sexp(c.prog)]))
+        reqs.append(('parse.text', [c.text]))
+    answers = chk.driver.ask_many(reqs) if reqs else []
+    tie = {'compared': 0, 'differences': 0, 'not_accepted_by_parsetok': 0}
+    for k, c in enumerate(todo):
+        gen = answers[2 * k].split('\x1f') if answers[2 * k] else []
+        po = ptc.model_outcome(answers[2 * k + 1])
+        tie['compared'] += 1
+        if po[0] != 'accept':
+            tie['not_accepted_by_parsetok'] += 1
+            tie['differences'] += 1
+            chk.disagreement('gen-vs-parsetok', {'script': c.text[:400]}, ptc.show(po)[:300],
+                             '{} instructions'.format(len(gen)))
+            continue
+        par = [percent_encode(ptc.canon_instr(w)) for w in po[1]]
+        if gen != par and vmwire.drop_self_moves(gen) != vmwire.drop_self_moves(par):
+            tie['differences'] += 1
+            j = next((i for i, (a, b) in enumerate(zip(par, gen)) if a != b), min(len(par), len(gen)))
+            chk.disagreement('gen-vs-parsetok', {'script': c.text[:400], 'index': j},
+                             par[j] if j < len(par) else '<end>', gen[j] if j < len(gen) else '<end>')
+    stats['gen_vs_parsetok'] = tie
 
 
 def _corpus():
